@@ -22,6 +22,8 @@ mod c11;
 mod c12;
 mod c13;
 mod c14;
+mod c15;
+mod fuzzrun;
 mod ir;
 mod cli;
 mod clicheck;
@@ -74,6 +76,7 @@ fn main() {
         "C12" => "C12",
         "C13" => "C13",
         "C14" => "C14",
+        "C15" => "C15",
         "C17" => "C17",
         "C20" => "C20",
         _ => usage(),
@@ -94,6 +97,7 @@ fn main() {
         "C12" => c12::run(&ctx),
         "C13" => c13::run(&ctx),
         "C14" => c14::run(&ctx),
+        "C15" => c15::run(&ctx),
         "C17" => c17::run(&ctx),
         "C20" => c20::run(&ctx),
         _ => unreachable!(),
@@ -127,6 +131,7 @@ fn replay(path: &str) -> i32 {
         "c12" => c12::replay(&v),
         "c13" => c13::replay(&v),
         "c14" => c14::replay(&v),
+        "c15" | "c15-family" | "cli-bytes" => c15::replay(&v),
         "cli" => clicheck::replay(&v),
         "c08" => c08::replay(&v),
         _ => Err(format!("unknown replay kind '{}'", kind)),
